@@ -71,6 +71,12 @@ RECIPES = [
     ("C01", "break", ["C01-R10"], "pyyeti/ode/solveunc.py", "            V[:, i] = vi = Fp * di + Gp * vi + ABFpi\n            D[:, i] = di = din\n            fki = fki1", "            V[:, i] = vi = Fp * di + Gp * vi + ABFpi\n            D[:, i] = di = din", "order 1: the previous force sample is never advanced"),
     ("C01", "break", ["C01-R10"], "pyyeti/ode/solveunc.py", "        AB = A + B\n        ABp = Ap + Bp", "        AB = A + B\n        ABp = Ap - Bp", "order 0: velocity force coefficient"),
     ("C01", "neutral", [], "pyyeti/ode/solveunc.py", "            ABFi = A * fki + B * fki1\n            ABFpi = Ap * fki + Bp * fki1\n            din = F * di + G * vi + ABFi", "            din = G * vi + F * di + (B * fki1 + A * fki)\n            ABFpi = Bp * fki1 + Ap * fki", "order 1: temporaries removed, commuted"),
+    ("C01", "break", ["C01-R11"], "pyyeti/ode/solveunc.py", "                    AF = A * (rbforce[:, :-1] + rbforce[:, 1:] / 2)", "                    AF = A * (rbforce[:, :-1] / 2 + rbforce[:, 1:])", "complex path rb: weights of the two force samples swapped"),
+    ("C01", "break", ["C01-R11"], "pyyeti/ode/solveunc.py", "                    AFp = (2 * Ap) * rbforce[:, :-1]", "                    AFp = Ap * rbforce[:, :-1]", "complex path rb, order 0: velocity increment halved"),
+    ("C01", "break", ["C01-R11"], "pyyeti/ode/solveunc.py", "            di = y[:, 0] = ur_inv_v @ v[kdof, 0] + ur_inv_d @ d[kdof, 0]", "            di = y[:, 0] = ur_inv_d @ v[kdof, 0] + ur_inv_v @ d[kdof, 0]", "complex path: state halves swapped in the modal initial state"),
+    ("C01", "break", ["C01-R11"], "pyyeti/ode/solveunc.py", "                ABF = Ae[:, None] * w[:, :-1] + Be[:, None] * w[:, 1:]", "                ABF = Ae[:, None] * w[:, 1:] + Be[:, None] * w[:, :-1]", "complex path: Ae and Be samples swapped"),
+    ("C01", "break", ["C01-R11"], "pyyeti/ode/solveunc.py", "                d[kdof, 1:] = rur_d @ ry - iur_d @ iy", "                d[kdof, 1:] = rur_d @ ry + iur_d @ iy", "complex path: real part of ur y"),
+    ("C01", "neutral", [], "pyyeti/ode/solveunc.py", "                    di = drb[:, i + 1] = di + G * vi + AF[:, i]\n                    vi = vrb[:, i + 1] = vi + AFp[:, i]", "                    d_new = AF[:, i] + di + G * vi\n                    v_new = AFp[:, i] + vi\n                    drb[:, i + 1] = d_new\n                    vrb[:, i + 1] = v_new\n                    di, vi = d_new, v_new", "complex path rb: temporaries"),
     # ---- C02
     ("C02", "break", ["C02-R1"], "pyyeti/ode/solveunc.py", "                    - self.m[_el][:, None] @ fw2\n", "                    + self.m[_el][:, None] @ fw2\n", "mass term sign"),
     ("C02", "break", ["C02-R2"], "pyyeti/ode/solveunc.py", "            a[el] = d[el] * -(freqw2)", "            a[el] = d[el] * (freqw2)", "a = -W^2 d sign"),
